@@ -91,6 +91,16 @@ def make_world(rng):
         files[f"{d_in}b{j}.o"] = elf
         binaries.append(f"{d_in}b{j}.o")
         binmeta[f"{d_in}b{j}.o"] = meta
+    # the same contents under names that say nothing (or the wrong thing) about their type
+    if listings and rng.random() < 0.5:
+        nm = d_in + rng.choice(["dump.o", "50%_listing.txt", "UPPER.ASM", "l;st$ing.s"])
+        files[nm] = files[listings[0]]
+        listings.append(nm)
+    if binaries and rng.random() < 0.5:
+        nm = d_in + rng.choice(["obj.s", "obj.S", "code.asm", "100%.bin", "x[1]?.o"])
+        files[nm] = files[binaries[0]]
+        binaries.append(nm)
+        binmeta[nm] = binmeta[binaries[0]]
     pool = []
 
     def add(family, variant, doc, pref, typ="assembly", macros=None, raw=None, stage=None):
@@ -244,6 +254,25 @@ def make_world(rng):
         for i, li in enumerate(listings):
             files[d_rules + li] = files[listings[(i + 1) % len(listings)]] if len(listings) > 1 else "\n"
 
+    # ---- matches that are empty, and matches that are very long (several kB of text in one element)
+    if listings:
+        li = rng.choice(listings)
+        for vname, pat in (("opt_only", [{"nop": {"times": {"min": 0, "max": 2}}}]), ("zero_times", [{"fxsave": {"times": 0}}]),
+                           ("opt_group", [{"$or": ["fxsave", "vpxor"], "times": {"min": 0, "max": 1}}]),
+                           ("opt_then_real", [{"fxsave": {"times": {"min": 0, "max": 1}}}, "mov"])):
+            add("emptymatch", vname, {"pattern": pat}, li)
+    if rng.random() < 0.5:
+        reg = "%" + rng.choice(gen.REG64)
+        n_run = rng.randrange(280, 420)
+        long_instrs = [gen.gen_instruction(rng, addr_pool=targets) for _ in range(3)] + [("push", [reg])] * n_run + [("ret", [])]
+        text, _e = gen.render_listing(rng, long_instrs, base=0x10000)
+        nm = f"{d_in}a_long.s"
+        files[nm] = text
+        listings.append(nm)
+        add("longmatch", "run", {"pattern": [{"push": {"times": {"min": 100, "max": 500}}}]}, nm)
+        add("longmatch", "run_ret", {"pattern": [{"push": [reg], "times": {"min": 50, "max": 450}}, "ret"]}, nm)
+        add("longmatch", "halves", {"pattern": [{"push": {"times": n_run // 2}}]}, nm)
+
     # ---- scalars whose meaning depends on YAML's implicit typing (unquoted hex / binary / octal ints, yes/no booleans)
     if listings:
         li = rng.choice(listings)
@@ -290,12 +319,15 @@ def _match_op(rng, entry, inputs_asm, inputs_bin, mode=None, input_override=None
     typ = entry["type"]
     if input_override:
         inp = input_override
-        typ = "binary" if inp.endswith(".o") else "assembly"
+        typ = "binary" if inp in inputs_bin else "assembly"
     elif rng.random() < 0.8 and entry["pref"]:
         inp = entry["pref"]
     else:
         inp = rng.choice(inputs_asm + inputs_bin)
-        typ = "binary" if inp.endswith(".o") else "assembly"
+        typ = "binary" if inp in inputs_bin else "assembly"
+    if rng.random() < 0.03:
+        # the wrong route for this file: a listing given as binary, an object given as listing (both must fail, consistently)
+        typ = "assembly" if typ == "binary" else "binary"
     op = {"op": "match", "rule": entry["rel"], "input": inp, "type": typ, "ret": ret, "search": search, "only_addr": only,
           "macros": list(entry["macros"]) if entry.get("macros") else None,
           "_tag": f"{entry['family']}:{entry['variant']}:{typ}:{ret}/{search}{'/addr' if only else ''}"}
@@ -332,7 +364,10 @@ def make_history(rng, world, with_faults):
         if ops and r < 0.12:
             prev = [o for o in ops if o["op"] == "match"]
             if prev:
-                ops.append(copy.deepcopy(rng.choice(prev[-3:])))
+                orig = rng.choice(prev[-3:])
+                if rng.random() < 0.6 and not orig.get("faults") and not orig.get("compile_only"):
+                    orig["reuse_config"] = True  # the caller keeps and re-uses its MatchConfig object
+                ops.append(copy.deepcopy(orig))
                 continue
         if use_writes and r < 0.25:
             ops.append(_write_op(rng, files, pool, listings, binaries, macro_files, focus, byfam))
@@ -366,7 +401,7 @@ def make_history(rng, world, with_faults):
             continue
         if r < 0.85:
             e = rng.choice(byfam[focus])
-            same_in = focus_in if e["pref"] and (e["pref"].endswith(".o") == focus_in.endswith(".o")) else None
+            same_in = focus_in if e["pref"] and ((e["pref"] in binaries) == (focus_in in binaries)) else None
             ops.append(_match_op(rng, e, listings, binaries, mode=focus_mode if rng.random() < 0.7 else None, input_override=same_in if rng.random() < 0.8 else None))
         else:
             e = rng.choice([x for x in pool if x["family"] != "broken"])
